@@ -80,10 +80,59 @@ async fn main() {
     let seed: u64 = std::env::var("VERIF_SEED").ok().and_then(|s| s.parse().ok()).unwrap_or(1);
     let cases: usize = a.iter().position(|x| x == "--cases").and_then(|i| a.get(i + 1)).and_then(|s| s.parse().ok()).unwrap_or(12);
     let model_path = a.iter().position(|x| x == "--model").and_then(|i| a.get(i + 1)).cloned().unwrap_or("/verif/lean/.lake/build/bin/ptmodel".into());
-    if prop != "C14h" && prop != "C15h" { eprintln!("unknown property"); std::process::exit(2); }
+    if prop != "C14h" && prop != "C15h" && prop != "C17h" { eprintln!("unknown property"); std::process::exit(2); }
     let mut m = model::Model::spawn(&model_path).expect("spawn ptmodel"); let mut r = Rng(seed.wrapping_mul(0x9E3779B97F4A7C15) | 1);
     let mut failures: Vec<Value> = vec![]; let mut disagreements: Vec<Value> = vec![]; let mut dist: BTreeMap<String, u64> = BTreeMap::new(); let mut samples = vec![]; let mut execs = 0u64; let mut steps = 0u64;
     let outs: Outs = Arc::new(Mutex::new(vec![])); let out_url = start_output(outs.clone()).await;
+    if prop == "C17h" {
+        // The concurrency budget of ONE real server that leads k computations; the follower is played by this harness (an HTTP endpoint that
+        // validates everything, records when `/run` arrives for which computation and keeps the computation "in progress" by not answering the
+        // leader's MPC messages until it is told to end it: then they are answered 404, the leader's MPC fails and its permit must come back).
+        // At no time may more than `conc` computations have received `/run` and not been ended; ending one must let the next one run; in the end
+        // the whole budget is available again (a further computation gets its `/run`).
+        #[derive(Default)] struct Fake { runs: Mutex<Vec<Uuid>>, ended: Mutex<Vec<Uuid>>, max_live: Mutex<usize> }
+        async fn f_ok() {}
+        async fn f_run(State(f): State<Arc<Fake>>, Json(r): Json<RunRequest>) { let mut runs = f.runs.lock().unwrap(); runs.push(r.computation_id); let ended = f.ended.lock().unwrap(); let live = runs.iter().filter(|i| !ended.contains(i)).count(); let mut m = f.max_live.lock().unwrap(); *m = (*m).max(live); }
+        async fn f_msg(State(f): State<Arc<Fake>>, Path((id, _from)): Path<(Uuid, usize)>) -> axum::http::StatusCode {
+            for _ in 0..3000 { if f.ended.lock().unwrap().contains(&id) { return axum::http::StatusCode::NOT_FOUND; } tokio::time::sleep(Duration::from_millis(10)).await; } axum::http::StatusCode::NOT_FOUND }
+        for case in 0..cases {
+            let conc = 1 + case % 2; let k = conc + 1 + case % 3; let with_dest = case % 4 < 2;
+            let fake = Arc::new(Fake::default());
+            let app = Router::new().route("/validate", post(f_ok)).route("/consts", post(f_ok)).route("/run", post(f_run)).route("/msg/{id}/{from}", post(f_msg)).with_state(fake.clone());
+            let l = tokio::net::TcpListener::bind("127.0.0.1:0").await.expect("bind"); let fake_url = Url::parse(&format!("http://{}", l.local_addr().unwrap())).unwrap(); let srv_task = tokio::spawn(async move { axum::serve(l, app).await.unwrap() });
+            let leader_url = start_servers(1, conc).await.remove(0); let parts = vec![leader_url.clone(), fake_url];
+            let client = reqwest::Client::builder().timeout(Duration::from_secs(20)).build().unwrap();
+            let ids: Vec<Uuid> = (0..=k).map(|j| Uuid::from_u128(0x7000 + (case * 16 + j) as u128 + ((seed as u128) << 32))).collect(); let mut bad: Vec<String> = vec![];
+            let mk = |j: usize| { let mut p = policy(&parts, 0, 0, &out_url, ids[j], P2); if !with_dest { p.output = None; } p };
+            for j in 0..k { let st = client.post(leader_url.join("schedule").unwrap()).json(&mk(j)).send().await.map(|r| r.status().as_u16()).unwrap_or(0); if st != 200 { bad.push(format!("schedule call {j} answered {st}")); } }
+            let live = |f: &Fake| { let runs = f.runs.lock().unwrap(); let ended = f.ended.lock().unwrap(); runs.iter().filter(|i| !ended.contains(i)).cloned().collect::<Vec<_>>() };
+            let wait_live = |want: usize, ms: u64| { let fake = fake.clone(); async move { let t0 = Instant::now(); while t0.elapsed() < Duration::from_millis(ms) { if live(&fake).len() >= want { break; } tokio::time::sleep(Duration::from_millis(10)).await; } live(&fake).len() } };
+            // all k are validated; exactly `conc` of them may be running now, and no more however long we wait
+            let got = wait_live(conc, 3000).await; if got < conc { bad.push(format!("only {got} of {conc} permitted computations were started")); }
+            tokio::time::sleep(Duration::from_millis(400)).await;
+            let mut log = vec![format!("{k} computations led by one server with concurrency {conc}: {} running", live(&fake).len())];
+            // end them one by one: each end must let exactly one waiting computation start
+            for step in 0..k { let l = live(&fake); if l.is_empty() { bad.push(format!("after {step} ended computations nothing is running although {} have not run yet", k - step)); break; }
+                fake.ended.lock().unwrap().push(l[0]); let remaining = k - step - 1; let want = remaining.min(conc);
+                let t0 = Instant::now(); while t0.elapsed() < Duration::from_secs(5) { if live(&fake).len() >= want && fake.runs.lock().unwrap().len() >= (step + 1 + want).min(k) { break; } tokio::time::sleep(Duration::from_millis(10)).await; }
+                tokio::time::sleep(Duration::from_millis(120)).await; log.push(format!("ended one: {} running, {} started so far", live(&fake).len(), fake.runs.lock().unwrap().len()));
+                if live(&fake).len() < want { bad.push(format!("after computation {step} ended only {} are running, {want} should be (a permit did not come back)", live(&fake).len())); break; } }
+            let max_live = *fake.max_live.lock().unwrap(); if max_live > conc { bad.push(format!("{max_live} computations had received /run and not ended at the same time, concurrency is {conc}")); }
+            // the whole budget is back: `conc` further computations all get their /run
+            let before = fake.runs.lock().unwrap().len();
+            { let st = client.post(leader_url.join("schedule").unwrap()).json(&mk(k)).send().await.map(|r| r.status().as_u16()).unwrap_or(0); if st != 200 { bad.push(format!("final schedule call answered {st}")); } }
+            let t0 = Instant::now(); while t0.elapsed() < Duration::from_secs(5) && fake.runs.lock().unwrap().len() <= before { tokio::time::sleep(Duration::from_millis(10)).await; }
+            if bad.is_empty() && fake.runs.lock().unwrap().len() <= before { bad.push("after all computations ended a further one is never run: the budget is not available again".into()); }
+            let rest = live(&fake); fake.ended.lock().unwrap().extend(rest); tokio::time::sleep(Duration::from_millis(150)).await; srv_task.abort();
+            if with_dest { let errs = outs.lock().unwrap().iter().filter(|(i, _, v)| ids.contains(i) && v.get("type").and_then(|t| t.as_str()) == Some("error")).count(); if errs < k && bad.is_empty() { bad.push(format!("{errs} error notifications for {k} failed computations with a destination")); } }
+            execs += 1; *dist.entry(format!("concurrency:{conc}")).or_default() += 1; *dist.entry(format!("policies:{k}")).or_default() += 1; *dist.entry(format!("destination:{with_dest}")).or_default() += 1;
+            if !bad.is_empty() { failures.push(json!({"witness": "C17:http-budget", "failure": bad, "case": json!({"case": case, "concurrency": conc, "policies": k, "destination": with_dest, "log": log})})); }
+            if samples.len() < 3 { samples.push(json!({"case": case, "concurrency": conc, "policies": k, "max_running_at_once": max_live, "log": log})); }
+            if std::env::var("VERIF_DEBUG").is_ok() { eprintln!("case {case} conc {conc} k {k}: max_live {max_live} log {log:?} bad {bad:?}"); }
+        }
+        println!("{}", serde_json::to_string_pretty(&json!({"executions": execs, "distinct_nontrivial": dist.len(), "distribution": dist, "samples": samples, "model_steps_compared": steps, "model_disagreements": disagreements, "impl_vs_oracle_failures": failures})).unwrap());
+        std::process::exit(0);
+    }
     if prop == "C15h" {
         // `Server`'s graceful shutdown (`Cancel::cancel` -> `cancel_all` -> `PolicyStateHandle::cancel` of every registered computation) at three moments
         for case in 0..cases {
